@@ -640,8 +640,14 @@ func (c *Ctx) unop(fr *frame, x *ssa.UnOp) Value {
 	switch x.Op {
 	case token.MUL: // load
 		p := v.(PtrV)
-		c.checkGuard(p, false)
-		return c.load(p)
+		eg := c.checkGuard(p, false)
+		val := c.load(p)
+		if eg != nil {
+			if sv, ok := val.(SliceV); ok && sv.base.obj != nil {
+				sv.base.obj.elemGuard = eg
+			}
+		}
+		return val
 	case token.NOT:
 		return c.tb.Not(v.(*Term))
 	case token.SUB:
